@@ -202,6 +202,18 @@ func (r *WordRenderer) renderInlineContent(node ast.Node, para *document.Paragra
 
 		case *ast.Image:
 			r.renderImageInline(n, para)
+
+		case *ast.AutoLink:
+			// 自动链接没有子节点，可见文本就是链接本身
+			format := &document.TextFormat{
+				FontColor: "0000FF", // 蓝色
+			}
+			para.AddFormattedText(string(n.Label(r.source)), format)
+
+		case *ast.String:
+			// 没有子节点，文本保存在节点自身
+			para.AddFormattedText(string(n.Value), nil)
+
 		case *extast.Strikethrough:
 			// 处理删除线
 			text := r.extractTextContent(n)
@@ -414,6 +426,12 @@ func (r *WordRenderer) extractTextContentRecursive(node ast.Node, buf *strings.B
 		switch n := child.(type) {
 		case *ast.Text:
 			buf.Write(n.Segment.Value(r.source))
+		case *ast.String:
+			// 没有子节点，文本保存在节点自身
+			buf.Write(n.Value)
+		case *ast.AutoLink:
+			// 自动链接没有Text子节点，可见文本就是链接本身
+			buf.Write(n.Label(r.source))
 		default:
 			r.extractTextContentRecursive(child, buf)
 		}
